@@ -17,13 +17,17 @@ package main
 import (
 	"bufio"
 	"encoding/hex"
+	"encoding/json"
 	"errors"
 	"flag"
 	"fmt"
 	"os"
+	"os/exec"
+	"path/filepath"
 	"sort"
 	"strconv"
 	"strings"
+	"time"
 
 	"github.com/google/uuid"
 	"github.com/rs/zerolog"
@@ -271,8 +275,17 @@ type nodeEnv struct {
 	dir  string
 }
 
+// where node directories are created ("" = system temp dir); set to the -out directory so that the
+// runner removes whatever an aborted run leaves behind
+var nodeParent = ""
+
+// an insert that has not returned after this long is reported as hanging (normal: milliseconds)
+const insertTimeout = 20 * time.Second
+
+var errHang = errors.New("verif: InsertPoints did not return")
+
 func newNode(maxC int64) (*nodeEnv, error) {
-	dir, err := os.MkdirTemp("", "verif-c15-")
+	dir, err := os.MkdirTemp(nodeParent, "verif-c15-")
 	if err != nil {
 		return nil, err
 	}
@@ -329,6 +342,7 @@ type insObs struct {
 	answer  string // refused | ok <created> <deltas> | err | error:<text>
 	fail    [2]string
 	nfailed int
+	hang    bool
 }
 
 // doInsert runs one ClusterNode.InsertPoints and evaluates the oracle on what the node reports before and after
@@ -342,7 +356,28 @@ func doInsert(e *nodeEnv, user, col string, p models.UserPlan, maxC int64, pts [
 		preTotal += s.PointCount
 	}
 	sent := append([]models.Point{}, pts...)
-	failed, err := e.node.InsertPoints(c, sent)
+	type insRet struct {
+		failed []cluster.FailedRange
+		err    error
+	}
+	ch := make(chan insRet, 1)
+	go func() {
+		defer func() {
+			if r := recover(); r != nil {
+				ch <- insRet{nil, fmt.Errorf("panic: %v", r)}
+			}
+		}()
+		f, err := e.node.InsertPoints(c, sent)
+		ch <- insRet{f, err}
+	}()
+	var failed []cluster.FailedRange
+	select {
+	case r := <-ch:
+		failed, err = r.failed, r.err
+	case <-time.After(insertTimeout):
+		// the goroutine keeps running (the real loop is creating shard after shard); the caller abandons the node
+		return pre, insObs{answer: "hang", hang: true, fail: [2]string{"insert-hangs", fmt.Sprintf("ClusterNode.InsertPoints of %d points (each fits an empty shard: per-shard maximum %d points, 2^40 bytes) has not returned after %v", len(pts), maxC, insertTimeout)}}
+	}
 	_, post, err2 := observe(e, user, col, p)
 	if err2 != nil {
 		return pre, insObs{answer: "error:" + err2.Error()}
@@ -550,14 +585,20 @@ func main() {
 	steps := flag.Int("steps", 25, "steps per history")
 	dir := flag.String("out", "", "output directory")
 	replay := flag.String("replay", "", "replay the op lines of this file against the implementation")
+	e2eChild := flag.Bool("e2e-child", false, "internal: run part B and write <out>/e2e.jsonl")
 	flag.Parse()
 	zerolog.SetGlobalLevel(zerolog.Disabled)
 	if *replay != "" {
 		doReplay(*replay)
 		return
 	}
+	if *e2eChild {
+		runE2EChild(*seed, *hist, *steps, *dir)
+		return
+	}
 	rng := vh.NewRng(*seed)
 	o := vh.NewOut(*dir)
+	nodeParent = *dir
 	stillCreating, nonFits, fitsCases, createErrs := 0, 0, 0, 0
 	emptyCreated := 0
 
@@ -691,10 +732,64 @@ func main() {
 		oneDP("dp-random", maxS, maxC, cap, sh, sizes)
 	}
 
-	// ---------------------------------------------------------------- part B: histories on one node
+	// ---------------------------------------------------------------- part B (child process)
+	e2eSummary := collectE2E(o, *seed, *hist, *steps, *dir)
+
+	o.Close(map[string]any{
+		"rule":                  "distinct op lines with a non-empty batch (dp / ins) or a collection creation (cc)",
+		"dp_cases_fits":         fitsCases,
+		"dp_cases_outside_fits": nonFits,
+		"dp_outside_fits_still_creating_after_5000_shards": stillCreating,
+		"dp_fits_cases_ending_in_createShardFn_error":      createErrs,
+		"dp_fits_created_shards_left_empty":                emptyCreated,
+		"e2e":                                              e2eSummary,
+	})
+}
+
+// ---------------------------------------------------------------------------- part B runs in a child process
+// (a panic inside a goroutine of the real code cannot be recovered; the parent survives it)
+
+type e2eRec struct {
+	Type       string         `json:"type"` // emit | fail | pending | summary
+	Kind       string         `json:"kind,omitempty"`
+	Op         string         `json:"op,omitempty"`
+	Ans        string         `json:"ans,omitempty"`
+	Nontrivial bool           `json:"nontrivial,omitempty"`
+	Sig        string         `json:"sig,omitempty"`
+	What       string         `json:"what,omitempty"`
+	Replay     string         `json:"replay,omitempty"`
+	Summary    map[string]any `json:"summary,omitempty"`
+}
+
+type childSink struct {
+	f     *os.File
+	enc   *json.Encoder
+	Stats map[string]int
+}
+
+func (c *childSink) put(r e2eRec) { c.enc.Encode(r) }
+func (c *childSink) Emit(kind, op, ans string, nontrivial bool) {
+	c.put(e2eRec{Type: "emit", Kind: kind, Op: op, Ans: ans, Nontrivial: nontrivial})
+}
+func (c *childSink) Fail(sig, what, replay string) {
+	c.put(e2eRec{Type: "fail", Sig: sig, What: what, Replay: replay})
+}
+func (c *childSink) Pending(desc string) { c.put(e2eRec{Type: "pending", Op: desc}) }
+
+func runE2EChild(seedv uint64, histv, stepsv int, dirv string) {
+	seed, hist, steps := &seedv, &histv, &stepsv
+	f, err := os.Create(filepath.Join(dirv, "e2e.jsonl"))
+	if err != nil {
+		fmt.Fprintln(os.Stderr, err)
+		os.Exit(3)
+	}
+	o := &childSink{f: f, enc: json.NewEncoder(f), Stats: map[string]int{}}
+	nodeParent = dirv
+	rng := vh.NewRng(*seed ^ 0xe2e0e2e0)
 	e2eSteps, refusedIns, acceptedIns, failedRanges := 0, 0, 0, 0
 	ccOutcomes := map[string]int{}
-	for h := 0; h < *hist; h++ {
+	hung := false
+	for h := 0; h < *hist && !hung; h++ {
 		maxC := vh.Pick(rng, []int64{1, 2, 3, 5})
 		e, err := newNode(maxC)
 		if err != nil {
@@ -716,6 +811,7 @@ func main() {
 				u := vh.Pick(rng, users)
 				cid := vh.Pick(rng, []string{"a", "b", "c"})
 				op := ccLine(maxCols[u], u, cid, keys)
+				o.Pending(op)
 				out := createOutcome(e.node.CreateCollection(models.Collection{UserId: u, Id: cid, UserPlan: plan(maxCols[u], 1<<40)}))
 				o.Emit("cc", op, out, true)
 				trace = append(trace, op)
@@ -800,11 +896,15 @@ func main() {
 			for i, k := range order {
 				sorted[i] = sizes[k]
 			}
+			o.Pending(insLine(maxC, q, pre0, sorted))
 			pre, obs := doInsert(e, c.user, c.id, plan(9, q), maxC, pts)
 			op := insLine(maxC, q, pre, sorted)
 			o.Emit("ins", op, obs.answer, nb > 0)
 			trace = append(trace, op)
 			e2eSteps++
+			if obs.hang {
+				hung = true
+			}
 			if obs.fail[0] != "" {
 				o.Fail("e2e-"+obs.fail[0], obs.fail[1], "# history on one node (seed "+strconv.FormatUint(*seed, 10)+", history "+strconv.Itoa(h)+"); the last line is the failing step\n"+strings.Join(trace, "\n"))
 			}
@@ -822,21 +922,97 @@ func main() {
 			if strings.HasPrefix(obs.answer, "error") {
 				o.Stats["e2e-error"]++
 			}
+			if hung {
+				break
+			}
 		}
-		e.close()
+		if !hung {
+			e.close()
+		}
 	}
 
-	o.Close(map[string]any{
-		"rule":                  "distinct op lines with a non-empty batch (dp / ins) or a collection creation (cc)",
-		"dp_cases_fits":         fitsCases,
-		"dp_cases_outside_fits": nonFits,
-		"dp_outside_fits_still_creating_after_5000_shards": stillCreating,
-		"dp_fits_cases_ending_in_createShardFn_error":      createErrs,
-		"dp_fits_created_shards_left_empty":                emptyCreated,
-		"e2e_steps":                                        e2eSteps,
-		"e2e_inserts_refused_by_quota":                     refusedIns,
-		"e2e_inserts_accepted":                             acceptedIns,
-		"e2e_failed_ranges_reported":                       failedRanges,
-		"e2e_create_outcomes":                              ccOutcomes,
-	})
+	o.put(e2eRec{Type: "summary", Summary: map[string]any{
+		"e2e_steps":                    e2eSteps,
+		"e2e_inserts_refused_by_quota": refusedIns,
+		"e2e_inserts_accepted":         acceptedIns,
+		"e2e_failed_ranges_reported":   failedRanges,
+		"e2e_create_outcomes":          ccOutcomes,
+		"e2e_stats":                    o.Stats,
+	}})
+	f.Close()
+	os.Exit(0) // do not wait for a hanging InsertPoints goroutine
+}
+
+// collectE2E runs part B in a child process and feeds what it recorded into the parent's output
+func collectE2E(o *vh.Out, seed uint64, hist, steps int, dir string) map[string]any {
+	summary := map[string]any{}
+	if hist <= 0 {
+		return summary
+	}
+	cmd := exec.Command(os.Args[0], "-e2e-child", "-seed", strconv.FormatUint(seed, 10), "-hist", strconv.Itoa(hist), "-steps", strconv.Itoa(steps), "-out", dir)
+	var stderr strings.Builder
+	cmd.Stderr = &stderr
+	done := make(chan error, 1)
+	if err := cmd.Start(); err != nil {
+		o.Stats["e2e-child-start-error"]++
+		return summary
+	}
+	go func() { done <- cmd.Wait() }()
+	var werr error
+	timedOut := false
+	select {
+	case werr = <-done:
+	case <-time.After(time.Duration(60+hist*steps/2) * time.Second):
+		cmd.Process.Kill()
+		werr = <-done
+		timedOut = true
+	}
+	var trace []string
+	pending := ""
+	sawSummary := false
+	if fl, err := os.Open(filepath.Join(dir, "e2e.jsonl")); err == nil {
+		sc := bufio.NewScanner(fl)
+		sc.Buffer(make([]byte, 1<<20), 1<<28)
+		for sc.Scan() {
+			var r e2eRec
+			if json.Unmarshal(sc.Bytes(), &r) != nil {
+				continue
+			}
+			switch r.Type {
+			case "emit":
+				o.Emit(r.Kind, r.Op, r.Ans, r.Nontrivial)
+				trace = append(trace, r.Op)
+				pending = ""
+			case "fail":
+				o.Fail(r.Sig, r.What, r.Replay)
+			case "pending":
+				pending = r.Op
+			case "summary":
+				summary = r.Summary
+				sawSummary = true
+			}
+		}
+		fl.Close()
+		os.Remove(filepath.Join(dir, "e2e.jsonl"))
+	}
+	if !sawSummary {
+		// the child died (panic in a goroutine of the real code, os.Exit, kill on timeout)
+		if len(trace) > 12 {
+			trace = trace[len(trace)-12:]
+		}
+		what := "the single-node history run crashed"
+		if timedOut {
+			what = "the single-node history run did not finish in time"
+		}
+		tail := stderr.String()
+		if i := strings.Index(tail, "panic:"); i >= 0 {
+			tail = tail[i:]
+		}
+		if len(tail) > 600 {
+			tail = tail[:600]
+		}
+		o.Fail("e2e-crash", fmt.Sprintf("%s (%v) while executing: %s; stderr: %s", what, werr, pending, strings.ReplaceAll(tail, "\n", " | ")),
+			"# steps of the history before the crash; the crashing step is the last line\n"+strings.Join(append(trace, pending), "\n"))
+	}
+	return summary
 }
